@@ -27,7 +27,7 @@ def run(ctx):
                 "generated file and of resources/kytea-model.bin must be rejected; non-trivial = model with a dictionary word")
     consts = {"CharWs": {1, 2, 3} if not q else {1, 3}, "TypeWs": {1, 2}, "DictNs": {1, 2, 3} if not q else {1, 3},
               "NDictsSet": {0, 1, 2, 3, 8} if not q else {0, 2, 3, 8}, "CSets": {0, 5, 63, 20} if not q else {5, 63},
-              "TSets": {0, 7, 60, 63, 451, 199} if not q else {7, 60, 451, 199}, "WSets": {0, 3, 15} if not q else {3, 15},
+              "TSets": {0, 7, 60, 63, 451, 199, 513, 3591} if not q else {7, 60, 451, 199, 3591}, "WSets": {0, 3, 15} if not q else {3, 15},
               "Surplus": 1, "NTagsSet": {0, 1, 2} if not q else {0, 2}}
     res = vlib.tlc("C17-gen-kytea", "Gen_Kytea", vlib.cfg_text(constants=consts, invariants=["WF", "Emit"]), timeout=3000)
     if res["violated"]:
